@@ -15,25 +15,33 @@ for (p, c, st), r in sorted(rows.items()):
         fixed.append("| %s | %s | %s | `%s` |" % (p, c, r["desc"].replace("|", "\\|"), "`, `".join(s.replace("|", "\\|") for s in r["sigs"][:4]) + (" …" if len(r["sigs"]) > 4 else "")))
     else:
         known.append("| %s | `%s` | %s |" % (p, "`, `".join(s.replace("|", "\\|") for s in r["sigs"]), r["desc"].replace("|", "\\|")))
+def skey(m): n = os.path.basename(os.path.dirname(m)); a, b = n.split("-"); return (a, int(b))
 seed = ["| seeded change | property | needs, to manifest | detected by quick check | signatures |", "|---|---|---|---|---|"]
-for m in sorted(glob.glob(os.path.join(V, "seeded", "*", "meta.json"))):
+for m in sorted(glob.glob(os.path.join(V, "seeded", "*", "meta.json")), key=skey):
     j = json.load(open(m)); name = os.path.basename(os.path.dirname(m))
     seed.append("| seeded/%s | %s | %s | %s | %s |" % (name, j["property"], j["needs_to_manifest"].replace("|", "\\|"), "yes" if j.get("detected") else "**no** (%s)" % j.get("miss_reason", "see meta.json"),
                                                        ", ".join("`%s`" % s.replace("|", "\\|") for s in j["check_run"].get("signatures_seen", [])[:3])))
 miss = ["| seeded change | why the check was blind, and what was added (from its meta.json `history`) |", "|---|---|"]
-def skey(m): n = os.path.basename(os.path.dirname(m)); a, b = n.split("-"); return (a, int(b))
 nmiss = 0
 for m in sorted(glob.glob(os.path.join(V, "seeded", "*", "meta.json")), key=skey):
     j = json.load(open(m)); name = os.path.basename(os.path.dirname(m))
     if "history" in j or not j.get("detected"):
         nmiss += 1
         miss.append("| seeded/%s | %s |" % (name, (j.get("history") or ("**still missed**: " + j.get("miss_reason", "see meta.json"))).replace("|", "\\|")))
+tot = first = later = never = 0; perprop = {}
+for m in glob.glob(os.path.join(V, "seeded", "*", "meta.json")):
+    j = json.load(open(m)); tot += 1; pp = perprop.setdefault(j["property"], [0, 0, 0])
+    if not j.get("detected"): never += 1; pp[2] += 1
+    elif "history" in j and j["history"].startswith(("missed", "first detected only")): later += 1; pp[1] += 1
+    else: first += 1; pp[0] += 1
+ssum = ["%d seeded changes are stored: %d were reported by the check of their property the first time it was run against them, %d after the check had been strengthened (section 11.1c), %d is a documented miss." % (tot, first, later, never), "",
+        "| property | reported at once | reported after strengthening | not reported |", "|---|---|---|---|"] + ["| %s | %d | %d | %d |" % (p, v[0], v[1], v[2]) for p, v in sorted(perprop.items())]
 mut = {}
 for m in sorted(glob.glob(os.path.join(V, "mutants", "*.patch"))):
     n = os.path.basename(m)[:-6]; mut.setdefault(n.split("_")[0], []).append(n)
 mt = ["| property | hand-made mutants and reverse-of-fix patches (mutants/) |", "|---|---|"] + ["| %s | %s |" % (p, ", ".join(v)) for p, v in sorted(mut.items())]
 s = open(os.path.join(V, "DESIGN.md")).read()
-for tag, lines in (("FIXED", fixed), ("KNOWN", known), ("SEEDED", seed), ("MISSES", miss), ("MUTANTS", mt)):
+for tag, lines in (("FIXED", fixed), ("KNOWN", known), ("SEEDSUM", ssum), ("SEEDED", seed), ("MISSES", miss), ("MUTANTS", mt)):
     pat = re.compile(r"<!-- GEN:%s -->.*?<!-- /GEN:%s -->" % (tag, tag), re.S)
     block = "<!-- GEN:%s -->\n%s\n<!-- /GEN:%s -->" % (tag, "\n".join(lines), tag)
     if pat.search(s): s = pat.sub(lambda m: block, s)
